@@ -26,6 +26,30 @@ PLAN = {
             {"name": "n-hist-snap", "argv": [VNATIVE, "hist", "--property", "C03"]},
         ],
     },
+    "C09": {
+        "packages": ["vnative"],
+        "engines": [
+            {"name": "n-sigstrings", "argv": [VNATIVE, "sig", "--property", "C09"]},
+        ],
+    },
+    "C10": {
+        "packages": ["vnative", "vsim"],
+        "engines": [
+            {"name": "n-boolsig", "argv": [VNATIVE, "sig", "--property", "C10"]},
+            {"name": "n-probe-bool", "argv": [VNATIVE, "probe", "--property", "C10"]},
+            {"name": "s1-arm64", "argv": [VSIM, "arm64", "--property", "C10", "--modes", "bool"]},
+            {"name": "s1-arm", "argv": [VSIM, "arm", "--property", "C10", "--modes", "bool"]},
+            {"name": "s1-amd64", "argv": [VSIM, "amd64", "--property", "C10", "--modes", "bool"]},
+        ],
+    },
+    "C13": {
+        "packages": ["vnative", "vsim"],
+        "engines": [
+            {"name": "n-probe", "argv": [VNATIVE, "probe", "--property", "C13"]},
+            {"name": "n-shapes", "argv": [VNATIVE, "shapes", "--property", "C13"]},
+            {"name": "s1-arm64", "argv": [VSIM, "arm64", "--property", "C13", "--modes", "fn"]},
+        ],
+    },
     "C12": {
         "packages": ["vnative"],
         "engines": [
@@ -82,6 +106,27 @@ META = {
         "technique": "property-based testing with a history invariant: full snapshots of every readable executable mapping between all steps of generated install histories; diff must lie inside named targets' 16-byte entry slots or injector-created trampoline pages",
         "text": "480 (quick) / 1.6*10^4 (thorough) generated histories with ~6 full executable-memory snapshots each (program text, all shared objects, vdso, arenas, trampolines; ~10 MB per snapshot). Targets sit between live neighbours at +/-16 bytes in synthetic arenas (incl. the last slot of a page), next to another instantiation of the same generic function and next to libc neighbours. Every differing byte between consecutive snapshots must be within 16 bytes of a target named so far or inside a mapping the interposer saw the injector create; after the drop the diff against the first snapshot must be empty; never-named functions are called at every observation point.",
         "note": NATIVE_NOTE,
+    },
+    "C09": {
+        "level": "exploration",
+        "design_ref": "DESIGN.md §4 C09",
+        "technique": "metamorphic property-based testing: generated function-pointer type structures rendered to signature strings, paired with a one-component grammar mutation (or identical / null / checked x unchecked), through the public FuncPtr::new + will_execute_raw / will_execute path; oracle derived from the generated structure + interposer (refusal before anything is modified)",
+        "text": "String level (public FuncPtr::new API): 1.6*10^4 (quick) / 8*10^5 (thorough) generated pairs: identical pairs must be accepted and redirect; pairs differing in arity, one parameter, return type, reference mutability, unsafety or ABI, null pointers and checked x unchecked mixes must panic with `Signature mismatch` / `Pointer must not be null`, with zero interposed mmap/mprotect calls and no byte of the target changed. Compiled level (engine G, every macro form over a generated family of types, all ordered pairs) is added by the g-sigfamily engine when present.",
+        "note": NATIVE_NOTE + " Pairs that differ only in lifetime spelling are exercised in engine G but not judged. KNOWN finding (engine G): two distinct nominal types with the same path (block-local homonyms) are not distinguished by type_name.",
+    },
+    "C10": {
+        "level": "exploration",
+        "design_ref": "DESIGN.md §4 C10",
+        "technique": "property-based testing: (a) generated signature strings with return types that merely end in `-> bool` against a structural oracle; (b) assembly caller stub with generated register files around a forced-boolean function; (c) the real arm64/arm/amd64 stub encoders in simulation judged by independent decoders",
+        "text": "(a) 1.2*10^4 / 6*10^5 generated signatures: accepted iff the top-level return type is exactly bool, refusal is a panic before any modification. (b) 4*10^3 / 4*10^5 generated register files x {true,false} x target in text / in arenas: al == value, rbx/rbp/r12-r15 and rsp as before the call, original body not run. (c) stubs emitted by the real arm64 (movz x0,#v; ret), arm (branch to a host-executed function returning v) and amd64 (mov rax,v; ret) encoders decoded for >10^5 cases each.",
+        "note": NATIVE_NOTE + " Only `al` is the result of a bool function: garbage in the upper bits of rax is not a violation. arm/arm64 stubs are judged from emitted bytes.",
+    },
+    "C13": {
+        "level": "exploration",
+        "design_ref": "DESIGN.md §4 C13",
+        "technique": "property-based testing with assembly probes: generated register files loaded by a caller stub and recorded by a recorder fake (both trampoline forms) + differential Rust-level signature shapes (faked call vs. direct call of the fake) + decoded register discipline of the arm64 sequences",
+        "text": "4*10^3 / 4*10^5 generated register files (6 integer argument registers, xmm0-7 at 128 bits, 0-16 stack words, rbx/rbp/r12-r15, returned rax/rdx/xmm0/xmm1) with near (rel32) and far (mov rax; jmp rax) fakes, each form >= 30% of cases (else exit 2): the fake must see exactly what the caller set incl. rsp and the return address, the caller exactly what the fake returned, callee-saved registers and rsp preserved. 4*10^3 / 4*10^5 cases over 10 Rust-level shapes (stack-passed integers and doubles, 48-byte aggregates, hidden return slot, u128 and scalar-pair returns, extern C twins) compared differentially. arm64: registers written by the emitted sequences must be within x9..x17 and never sp (simulation).",
+        "note": NATIVE_NOTE + " rax, r10, r11 on entry to the fake are not compared (caller-saved, carry no argument of the supported signatures; the long form legitimately uses rax). The 32-bit ARM scratch-register question is judged once, under C16.",
     },
     "C12": {
         "level": "exploration",
